@@ -19,6 +19,7 @@
 #include <stdio.h>
 #include <stdlib.h>
 #include <string.h>
+#include <sys/mman.h>
 #include <sys/stat.h>
 #include <sys/types.h>
 #include <unistd.h>
@@ -31,7 +32,7 @@ extern _Atomic(int) opd_format_table_index[26];
 #define MAXLOG 200000
 
 /* work items: (options, chunk, counting, program) - private per thread */
-struct item { int mov, swap, nobase, chunk, count; const char *text; int usefile; };
+struct item { int mov, swap, nobase, chunk, count; const char *text; int usefile; int internal; };
 static const struct item ITEMS[] = {
     {2, 1, 1, 0, 0, "mov rax, 0x5\nadd rax, rcx\nlea rdx, [rax+rsp]\nlea rcx, [2*rax]\nret\n"},
     /* the file entry points (files of different sizes, private to the item): placed so that two threads run them side by side */
@@ -41,8 +42,19 @@ static const struct item ITEMS[] = {
     {1, 1, 0, 0, 16, "xor eax, eax\nimul rax, rcx, 0x12345\nmovq xmm1, rax\nbzhi ecx, [r13+rcx*4], r10d\njne -0x1000\nret\n"},
     {2, 0, 1, 16, 0, "paddb mm1, [rax]\nsetc al\ncmovne rax, r11\nmulx r8, r9, [rsi]\nmov qword [rax+0x12345], 0x5\nret\n"},
     {1, 0, 1, 0, 3, "nop11\nnop7\nadd qword [rax+rcx*4+0x10], 0x12345678\nxchg eax, eax\nbogus line\nret\n"},
+    /* a library-managed buffer that has to grow (and may move) twice: text built at start-up; free-running mode only
+       (thousands of table accesses: too long for the interleaving model) */
+    {2, 1, 1, 0, 0, NULL, 0, 1},
+    /* and a short program on a library-managed buffer (its mapping is what a stale unmap of another thread would hit) */
+    {1, 1, 1, 0, 0, "mov rax, 0x5\nadd rax, rcx\nlea rdx, [rax+rsp]\nret\n", 0, 1},
 };
-#define NITEMS ((int)(sizeof ITEMS / sizeof ITEMS[0]))
+#define NALL ((int)(sizeof ITEMS / sizeof ITEMS[0]))
+#define NSCHED (NALL - 2)            /* items of the model and of the scheduled runs */
+static int NITEMS = NSCHED;
+static int stress_mode = 0, stress_bad = 0;
+static struct result *stress_ref;
+static int stress_moves = 0, stress_grows = 0;
+static void on_grow_count(const void *al, int o, int n, int moved) { (void)al; (void)o; (void)n; __atomic_add_fetch(&stress_grows, 1, __ATOMIC_RELAXED); if (moved) __atomic_add_fetch(&stress_moves, 1, __ATOMIC_RELAXED); }
 
 struct result { int ret, off, dest; unsigned hash; };
 
@@ -56,14 +68,17 @@ static unsigned hash30(const unsigned char *p, int n) {
 }
 static enum asm_opt ov(int v) { return v == 0 ? STRICT : v == 1 ? NASM : SMART; }
 
+static char *long_text;
 static void work(const struct item *it, unsigned char *buf, struct result *r) {
   memset(buf, 0xAA, CAPB);
-  assemblyline_t al = asm_create_instance(buf, CAPB);
+  in_work = 1;
+  assemblyline_t al = it->internal ? asm_create_instance(NULL, 0) : asm_create_instance(buf, CAPB);
+  in_work = 0;
   asm_mov_imm(al, ov(it->mov));
   asm_sib_index_base_swap(al, ov(it->swap));
   asm_sib_no_base(al, ov(it->nobase));
   if (it->chunk) asm_set_chunk_size(al, it->chunk);
-  char *txt = strdup(it->usefile ? item_path[it - ITEMS] : it->text);
+  char *txt = strdup(it->usefile ? item_path[it - ITEMS] : it->text ? it->text : long_text);
   r->dest = -7;
   in_work = 1;
   if (it->usefile) r->ret = it->count ? asm_assemble_file_counting_chunks(al, txt, it->count, &r->dest) : asm_assemble_file(al, txt);
@@ -71,8 +86,11 @@ static void work(const struct item *it, unsigned char *buf, struct result *r) {
   in_work = 0;
   free(txt);
   r->off = asm_get_offset(al);
-  r->hash = hash30(buf, r->off > 0 && r->off < CAPB ? r->off : 0);
+  if (it->internal) r->hash = hash30(asm_get_code(al), r->off > 0 ? r->off : 0);
+  else r->hash = hash30(buf, r->off > 0 && r->off < CAPB ? r->off : 0);
+  in_work = 1;
   asm_destroy_instance(al);
+  in_work = 0;
 }
 
 /* ---- logging of table accesses and turn-based scheduling ---- */
@@ -118,6 +136,60 @@ int __wrap_open(const char *p, int fl, ...) { os_yield(0); int r = __real_open(p
 int __wrap_fstat(int fd, struct stat *st) { os_yield(2); int r = __real_fstat(fd, st); os_yield(3); return r; }
 ssize_t __wrap_read(int fd, void *b, size_t n) { os_yield(4); ssize_t r = __real_read(fd, b, n); os_yield(5); return r; }
 int __wrap_close(int fd) { os_yield(6); int r = __real_close(fd); os_yield(7); return r; }
+/* pair mode: thread 1 grows a library-managed buffer; the first time the kernel MOVES its mapping, thread 2 is let in right behind
+ * the mremap (it creates a library-managed instance - its mapping takes the range just vacated, if the kernel hands it out - and
+ * assembles into it), then thread 1 goes on, then thread 2 finishes (reads its code back, destroys the instance) */
+static int pair_mode, pair_stage; /* 0 idle, 1: T2 may run its first half, 2: T1 may go on, 3: T2 may finish */
+static pthread_mutex_t pmu = PTHREAD_MUTEX_INITIALIZER; static pthread_cond_t pcv = PTHREAD_COND_INITIALIZER;
+static void pair_set(int v) { pthread_mutex_lock(&pmu); pair_stage = v; pthread_cond_broadcast(&pcv); pthread_mutex_unlock(&pmu); }
+static void pair_wait(int v) { pthread_mutex_lock(&pmu); while (pair_stage < v) pthread_cond_wait(&pcv, &pmu); pthread_mutex_unlock(&pmu); }
+static void *pair_vacated;   /* pair mode: the range thread 1's mapping was moved away from, offered to thread 2 as a placement hint
+                                (a hint, not MAP_FIXED: the kernel may hand out any free range, this one included) */
+/* the mapping calls of library-managed buffers */
+#ifndef NO_MAP_WRAP
+void *__real_mmap(void *, size_t, int, int, int, off_t); void *__real_mremap(void *, size_t, size_t, int, ...); int __real_munmap(void *, size_t);
+void *__wrap_mmap(void *a, size_t l, int p, int f, int fd, off_t o) {
+  os_yield(8);
+  if (a == NULL && me == 2 && pair_vacated) a = pair_vacated;
+  void *r = __real_mmap(a, l, p, f, fd, o);
+  os_yield(9);
+  return r;
+}
+void *__wrap_mremap(void *a, size_t o, size_t n, int f, ...) {
+  os_yield(10);
+  void *r = __real_mremap(a, o, n, f);
+  if (pair_mode && me == 1 && r != a && r != MAP_FAILED && pair_stage == 0) { pair_vacated = a; pair_set(1); pair_wait(2); }
+  os_yield(11);
+  return r;
+}
+int __wrap_munmap(void *a, size_t l) { os_yield(12); int r = __real_munmap(a, l); os_yield(13); return r; }
+#endif
+
+void *pair_t1(void *p) {
+  me = 1;
+  unsigned char *buf = malloc(CAPB);
+  work(&ITEMS[NALL - 2], buf, p);            /* the growing library-managed buffer */
+  free(buf);
+  pair_set(pair_stage < 2 ? 2 : pair_stage);
+  return NULL;
+}
+void *pair_t2(void *p) {
+  me = 2;
+  struct result *r = p;
+  const struct item *it = &ITEMS[NALL - 1];
+  pair_wait(1);
+  assemblyline_t al = asm_create_instance(NULL, 0);
+  char *txt = strdup(it->text);
+  r->ret = asm_assemble_str(al, txt);
+  free(txt);
+  pair_set(2);                                /* thread 1 goes on behind its mremap */
+  pair_wait(3);                               /* ... and has finished */
+  r->off = asm_get_offset(al);
+  r->dest = -7;
+  r->hash = hash30(asm_get_code(al), r->off > 0 ? r->off : 0);
+  asm_destroy_instance(al);
+  return NULL;
+}
 
 struct targ { int id, rounds; struct result *res; };
 static void *thread_main(void *p) {
@@ -125,7 +197,15 @@ static void *thread_main(void *p) {
   me = a->id;
   unsigned char *buf = malloc(CAPB);
   for (int r = 0; r < a->rounds; r++) {
-    int k = (a->id + r) % NITEMS;
+    int k = stress_mode ? (a->id % 3 == 0 ? NALL - 2 : (r % 4 == 3 ? (a->id + r) % NSCHED : NALL - 1)) : (a->id + r) % NITEMS;
+    if (stress_mode) {
+      /* many rounds: the result is compared with the single-threaded reference at once and only mismatches are counted */
+      struct result x;
+      work(&ITEMS[k], buf, &x);
+      if (x.ret != stress_ref[k].ret || x.off != stress_ref[k].off || x.dest != stress_ref[k].dest || x.hash != stress_ref[k].hash)
+        __atomic_add_fetch(&stress_bad, 1, __ATOMIC_RELAXED);
+      continue;
+    }
     work(&ITEMS[k], buf, &a->res[r]);
   }
   free(buf);
@@ -141,7 +221,7 @@ static void dump_log(void) {
     printf("{\"e\":\"Tbl\",\"th\":%d,\"s\":%d,\"t\":%d,\"i\":%d,\"v\":%d}\n", alog[k].th, alog[k].s, alog[k].t, alog[k].i, alog[k].v);
 }
 
-static void run_threads(int n, int rounds, struct result ref[NITEMS]) {
+static void run_threads(int n, int rounds, struct result *ref) {
   pthread_t th[MAXT + 1];
   struct targ ta[MAXT + 1];
   static struct result res[MAXT + 1][64];
@@ -149,10 +229,15 @@ static void run_threads(int n, int rounds, struct result ref[NITEMS]) {
   memset(finished, 0, sizeof finished);
   for (int t = 1; t <= n; t++) { ta[t].id = t; ta[t].rounds = rounds; ta[t].res = res[t]; pthread_create(&th[t], NULL, thread_main, &ta[t]); }
   for (int t = 1; t <= n; t++) pthread_join(th[t], NULL);
+  if (stress_mode) {
+    printf("{\"e\":\"Stress\",\"threads\":%d,\"rounds\":%d,\"mismatches\":%d,\"grows\":%d,\"moves\":%d}\n{\"e\":\"Reset\"}\n", n, rounds, stress_bad, stress_grows, stress_moves);
+    fflush(stdout);
+    return;
+  }
   dump_log();
   for (int t = 1; t <= n; t++)
     for (int r = 0; r < rounds; r++) {
-      int k = (t + r) % NITEMS;
+      int k = stress_mode ? (t % 3 == 0 ? NALL - 2 : (r % 4 == 3 ? (t + r) % NSCHED : NALL - 1)) : (t + r) % NITEMS;
       printf("{\"e\":\"Result\",\"th\":%d,\"round\":%d,\"item\":%d,\"ret\":%d,\"off\":%d,\"dest\":%d,\"hash\":%u,"
              "\"ref\":{\"ret\":%d,\"off\":%d,\"dest\":%d,\"hash\":%u}}\n",
              t, r, k, res[t][r].ret, res[t][r].off, res[t][r].dest, res[t][r].hash, ref[k].ret, ref[k].off, ref[k].dest, ref[k].hash);
@@ -167,7 +252,7 @@ int main(int argc, char **argv) {
   alog = malloc(sizeof(struct acc) * MAXLOG);
   /* item files (private directory given by the driver) */
   const char *dir = getenv("THR_DIR");
-  for (int k = 0; k < NITEMS; k++)
+  for (int k = 0; k < NALL; k++)
     if (ITEMS[k].usefile) {
       snprintf(item_path[k], sizeof item_path[k], "%s/item%d.asm", dir ? dir : ".", k);
       FILE *f = fopen(item_path[k], "w");
@@ -175,10 +260,15 @@ int main(int argc, char **argv) {
       fputs(ITEMS[k].text, f);
       fclose(f);
     }
-  struct result ref[NITEMS];
+  /* 1300 ten-byte instructions: 13000 bytes, two growth steps of the 6020-byte initial mapping */
+  long_text = malloc(1300 * 32 + 8);
+  long_text[0] = 0;
+  for (int q = 0; q < 1300; q++) strcat(long_text, "mov rax, 0x1122334455667788\n");
+  strcat(long_text, "ret\n");
+  struct result ref[NALL];
   unsigned char *buf = malloc(CAPB);
   /* single-threaded reference (hooks not installed yet) */
-  for (int k = 0; k < NITEMS; k++) work(&ITEMS[k], buf, &ref[k]);
+  for (int k = 0; k < NALL; k++) work(&ITEMS[k], buf, &ref[k]);
   al_verif.tbl = on_tbl;
   if (!strcmp(argv[1], "observe")) {
     for (int k = 0; k < NITEMS; k++) {
@@ -195,9 +285,35 @@ int main(int argc, char **argv) {
   }
   int n = argc > 2 ? atoi(argv[2]) : 2, rounds = argc > 3 ? atoi(argv[3]) : 1;
   if (n > MAXT) n = MAXT;
-  if (rounds > 64) rounds = 64;
+  if (rounds > 64 && strcmp(argv[1], "stress")) rounds = 64;
   nthreads = n;
-  if (!strcmp(argv[1], "free")) {
+  if (!strcmp(argv[1], "pair")) {
+    /* argv[2] = repetitions.  Thread 2's result must equal the single-threaded reference of its item whatever thread 1 did */
+    al_verif.tbl = NULL;
+    int reps = argc > 2 ? atoi(argv[2]) : 20, bad = 0, moved = 0;
+    pair_mode = 1;
+    for (int q = 0; q < reps; q++) {
+      pair_stage = 0; pair_vacated = NULL;
+      pthread_t t1, t2;
+      static struct result r1, r2;
+      extern void *pair_t1(void *), *pair_t2(void *);
+      pthread_create(&t1, NULL, pair_t1, &r1); pthread_create(&t2, NULL, pair_t2, &r2);
+      pthread_join(t1, NULL);
+      if (pair_stage == 0) pair_set(1);     /* no move happened: let thread 2 run through */
+      else moved++;
+      pair_set(3);
+      pthread_join(t2, NULL);
+      const struct result *e1 = &ref[NALL - 2], *e2 = &ref[NALL - 1];
+      if (r1.ret != e1->ret || r1.off != e1->off || r1.hash != e1->hash || r2.ret != e2->ret || r2.off != e2->off || r2.hash != e2->hash) bad++;
+    }
+    printf("{\"e\":\"Stress\",\"threads\":2,\"rounds\":%d,\"mismatches\":%d,\"grows\":0,\"moves\":%d}\n{\"e\":\"Reset\"}\n", reps, bad, moved);
+    return 0;
+  }
+  if (!strcmp(argv[1], "free") || !strcmp(argv[1], "stress")) {
+    /* stress (plain build only): all items, including the growing library-managed buffer.  The race detector does not follow
+       mremap, so a moved mapping whose old range another thread maps next would be reported as a race: that item stays out of
+       the instrumented run and is judged by crashes and per-thread results instead */
+    if (!strcmp(argv[1], "stress")) { NITEMS = NALL; stress_mode = 1; stress_ref = ref; al_verif.grow = on_grow_count; }
     al_verif.tbl = NULL; /* no serialisation at all: the sanitizer sees the real accesses */
     run_threads(n, rounds, ref);
     return 0;
